@@ -250,8 +250,21 @@ def make_objective(b: Built, o, p):
     return obj
 
 
-def build(p, quiet=True) -> Built:
+def build(p, quiet=True, roundtrip=False) -> Built:
+    """roundtrip=True: every task and plain worker is first created in a scratch problem, dumped with
+    to_json() and re-created in the real problem with SchedulingProblem.add_from_json()."""
     b = Built()
+    task_json, worker_json = [], {}
+    if roundtrip:
+        ps.SchedulingProblem(name="scratch")
+        task_json = [make_task(tk).to_json() for tk in p["tasks"]]
+        for i, w in enumerate(p["workers"]):
+            if w["cumul"] == 0:
+                kww = dict(name=w["name"], productivity=w["prod"])
+                c = cost_fn(w["cost"])
+                if c is not None:
+                    kww["cost"] = c
+                worker_json[i] = ps.Worker(**kww).to_json()
     kw = {"name": p["name"]}
     if p["user_horizon"]:
         kw["horizon"] = p["H"]
@@ -260,13 +273,15 @@ def build(p, quiet=True) -> Built:
     if p.get("start_time"):
         kw["start_time"] = datetime.datetime.fromisoformat(p["start_time"][0])
     b.problem = ps.SchedulingProblem(**kw)
-    for tk in p["tasks"]:
-        b.tasks.append(make_task(tk))
+    for i, tk in enumerate(p["tasks"]):
+        b.tasks.append(b.problem.add_from_json(task_json[i]) if roundtrip else make_task(tk))
     # workers: plain ones directly, unit workers through their cumulative worker
     b.workers = [None] * len(p["workers"])
     done_cumul = set()
     for i, w in enumerate(p["workers"]):
-        if w["cumul"] == 0:
+        if w["cumul"] == 0 and roundtrip:
+            b.workers[i] = b.problem.add_from_json(worker_json[i])
+        elif w["cumul"] == 0:
             kww = dict(name=w["name"], productivity=w["prod"])
             c = cost_fn(w["cost"])
             if c is not None:
